@@ -358,23 +358,32 @@ def execute(case):
                                  'export-not-argmax', f'{tag}: {cname}: kept branches {sorted(kept)} arg-max {best} raw {a.tolist()}',
                                  culprit)
 
-    def adopt_reported_options(why):
-        """after a checkpoint was loaded: a library that persists the sampling options in the state_dict changes them
-        legitimately on load. If every quantizer reports (hard_softmax, gumbel_softmax, disable_sampling) and all
-        agree, the reference adopts the reported values where they differ from the script's - the behaviour is then
-        held against what the model itself reports. On the pinned tree a load never changes them."""
-        if method != 'mps':
-            return
-        rep_ = set()
-        for q in rep.model.modules():
+    def reported_options(model):
+        out = {}
+        for n_, q in model.named_modules():
             if isinstance(q, MPSBaseQtz):
                 try:
-                    rep_.add((bool(q.hard_softmax), bool(q.gumbel_softmax), bool(q.disable_sampling)))
+                    out[n_] = (bool(q.hard_softmax), bool(q.gumbel_softmax), bool(q.disable_sampling))
                 except AttributeError:
-                    return
-        if len(rep_) != 1:
+                    return None
+        return out
+
+    def adopt_reported_options(why, before):
+        """a load is not a sampling-option call, but a library that persists the options in the state_dict changes
+        them legitimately on load. `before`: what every quantizer reported (hard_softmax, gumbel_softmax,
+        disable_sampling) right before the load. If the load changed what some quantizers report and all of those now
+        agree, the reference adopts the reported values - the samplers are then held against what the model itself
+        says. On the pinned tree a load never changes them. (Quantizers the model-level option calls never reach -
+        the placeholder in front of the input quantizer - report their construction defaults throughout.)"""
+        if method != 'mps' or before is None:
             return
-        h_, g_, d_ = next(iter(rep_))
+        after = reported_options(rep.model)
+        if after is None:
+            return
+        changed = {after[n_] for n_ in after if n_ in before and after[n_] != before[n_]}
+        if len(changed) != 1:
+            return
+        h_, g_, d_ = next(iter(changed))
         if (h_, g_, d_) != (opts['hard'], opts['gumbel'], opts['disable_sampling']):
             bump('options_adopted_from_what_the_model_reports_after_' + why)
             opts['hard'], opts['gumbel'], opts['disable_sampling'] = h_, g_, d_
@@ -401,7 +410,7 @@ def execute(case):
                 break
             install()
             last_ctrl = 'restart'
-            adopt_reported_options('restart')
+            adopt_reported_options('restart', reported_options(rep.ghost) if rep.ghost is not None else None)
             events.append(f'{idx} crash_restart')
             continue
         if k == 'save_ckpt':
@@ -415,6 +424,7 @@ def execute(case):
         if k == 'set_mode':
             last_ctrl = lab
         captured.clear()
+        reported_before = reported_options(rep.model) if (k == 'load_ckpt' and method == 'mps') else None
         try:
             obs = W.apply_op(rep, op, idx, run_seed)
         except Exception as e:
@@ -424,7 +434,7 @@ def execute(case):
         if obs.get('aborted'):
             bump('fault_abort_forward')
         if k == 'load_ckpt':
-            adopt_reported_options('load')
+            adopt_reported_options('load', reported_before)
             last_ctrl = 'load_ckpt'
         if getattr(rep, 'objects_replaced', 0) != seen_replaced[0]:
             seen_replaced[0] = rep.objects_replaced
